@@ -12,6 +12,7 @@ import VerdeModel.Model.Gridder
 import VerdeModel.Model.LinAlg
 import VerdeModel.Model.Kernels
 import VerdeModel.Model.Neighbors
+import VerdeModel.Model.Chain
 namespace Verde
 open Val
 
@@ -363,8 +364,34 @@ def opsNeighbors (op : String) (a : List Val) : Option Val :=
       pure (toVal (distanceMask es ns md qs, margins))
   | _ => none
 
+partial def parseSpec (v : Val) : Option StepSpec :=
+  match v with
+  | .list (.atom "trend" :: d :: []) => do pure (.trend (← fromVal d))
+  | .list [.atom "moment"] => some .moment
+  | .list [.atom "knn", k, .atom r] => do pure (.knn (← fromVal k) (← redOf r))
+  | .list (.atom "block_reduce" :: rest) => do
+      let b ← blockSpecAt rest 0
+      pure (.blockReduce b ⟨← parseRed (← argAt String rest 4), ← argAt Bool rest 5, ← argAt Bool rest 6⟩)
+  | .list (.atom "block_mean" :: rest) => do
+      let b ← blockSpecAt rest 0
+      pure (.blockMean b (← argAt Bool rest 4) (← argAt Bool rest 5) (← argAt Bool rest 6))
+  | .list [.atom "chain", .list ss] => do pure (.chain (← ss.mapM parseSpec))
+  | .list [.atom "vector", .list ss] => do pure (.vector (← ss.mapM parseSpec))
+  | _ => none
+
+def opsChain (op : String) (a : List Val) : Option Val :=
+  match op with
+  | "compose" => do
+      let spec ← parseSpec (← a[0]?)
+      let rows ← rowsAt a 1
+      let q ← argAt (List (List Rat)) a 4
+      let pred : Except Err Data := do let p ← spec.fitP rows; p q
+      let filt : Except Err Rows := do let (r, _) ← spec.toStep.filter rows; pure r
+      pure (toVal (pred, filt))
+  | _ => none
+
 def dispatchers : List (String → List Val → Option Val) :=
-  [opsCoords, opsBlocks, opsWindows, opsGrid, opsCV, opsScore, opsGridder, opsLinAlg, opsKernels, opsNeighbors]
+  [opsCoords, opsBlocks, opsWindows, opsGrid, opsCV, opsScore, opsGridder, opsLinAlg, opsKernels, opsNeighbors, opsChain]
 
 def runLine (line : String) : String :=
   match Val.parseLine line with
